@@ -114,6 +114,21 @@ def execute(mc, row, m, by_name, seed):
         kwargs['initial_version'] = arg(row['initial'])
     run = Run(seed=seed)
     obs = {'status': [], 'ping': [], 'stdout': '', 'constructed': False, 'ctor_error': None, 'conn_versions': []}
+    token = None
+    if row['mode'] == 'connect' and seed % 4 == 3:
+        class _Profile(object):
+            name, id_ = None, None          # not authenticated yet when the Connection is constructed
+
+            def __bool__(self):
+                return self.name is not None
+
+        class _Token(object):
+            def __init__(self):
+                self.profile = _Profile()
+
+            def join(self, server_id):
+                return True
+        token = kwargs['auth_token'] = _Token()
     srv = row['srv']
     ping_requested = row['mode'] == 'status' and row['hp'] != 'off'
 
@@ -180,6 +195,11 @@ def execute(mc, row, m, by_name, seed):
             return
         obs['constructed'] = True
         obs['ctx0'] = c.context.protocol_version
+        if token is not None:
+            # the token is authenticated / refreshed after the Connection was made (the profile is updated in place, as
+            # AuthenticationToken.authenticate and refresh do): the login names the profile as it is when connecting
+            token.profile.name, token.profile.id_ = 'authd_%d' % (seed % 97), 'abcdef0123456789abcdef0123456789'
+            obs['login_name'] = token.profile.name
         if row['mode'] == 'connect':
             c.connect()
         else:
@@ -228,7 +248,7 @@ def judge(mc, row, m, run, obs, by_name):
         if f[0] == 'handshake':
             exp.append(['handshake', tok(f[1]), f[2], True])
         elif f[0] == 'login_start':
-            exp.append(['login_start', 'verif'])
+            exp.append(['login_start', obs.get('login_name', 'verif')])
         else:
             exp.append([f[0]])
     tcp = len(run.scripts) + run.refused
